@@ -122,6 +122,7 @@ theorem bq_hasPending (s : BSt) : bq (hasPending s).1 = bq s := by
 theorem pending_closedB (N : Nat) : ClosedB (fun x => pendingTotal x ≤ N) where
   siteCnt := fun _ _ h => h
   emitInj := fun _ _ _ _ _ h => h
+  note := fun _ h => h
   clock := fun _ _ h => h
   lastFlush := fun _ _ h => h
   gone := fun _ h => h
